@@ -1,6 +1,6 @@
 (* C13: load reproduces the source table faithfully (file level, wrappers, headers, selection). *)
 From Coq Require Import List ZArith Bool.
-From DF Require Import Base.Str Base.ListX Base.Value Proc.RowOps Proc.Fields Proc.Load Proc.Load_proofs IO.Csv IO.Csv_proofs IO.LoadCsv_proofs.
+From DF Require Import Base.Str Base.ListX Base.Value Proc.RowOps Proc.Fields Proc.Load Proc.Load_proofs Proc.LoadHeaders_proofs IO.Csv IO.Csv_proofs IO.LoadCsv_proofs.
 Import ListNotations.
 Open Scope Z_scope.
 
@@ -67,6 +67,31 @@ Theorem C13_unique_headers_untouched : forall dedup cs pre post hs,
 Proof. exact headers_unique_untouched. Qed.
 Print Assumptions C13_unique_headers_untouched.
 
+(* header de-duplication in closed form, for every header list, both case modes and every format: a header whose key
+   (itself, or its lower-case form) occurs once is kept; the j-th of several headers sharing a key becomes
+   header ++ pre ++ j ++ post *)
+Print entry.          (* entry all seen h := if 1 <? cnt (hkey cs h) all then fmt_dup pre post h (cnt (hkey cs h) seen + 1) else h *)
+Print scheme_from.    (* scheme_from all seen (h :: r) := entry all seen h :: scheme_from all (seen ++ [hkey cs h]) r *)
+Theorem C13_dedup_headers_scheme : forall cs pre post hs,
+  rename_duplicate_headers cs pre post hs = scheme_from cs pre post (map (hkey cs) hs) [] hs.
+Proof. exact rename_duplicate_headers_scheme. Qed.
+Print Assumptions C13_dedup_headers_scheme.
+
+(* every name still begins with its header; headers with a unique key are untouched; one name per header *)
+Theorem C13_dedup_headers_kept : forall cs pre post hs,
+  Forall2 (fun h e => is_prefix h e = true /\ (cnt (hkey cs h) (map (hkey cs) hs) <= 1 -> e = h))
+          hs (rename_duplicate_headers cs pre post hs).
+Proof. exact rename_keeps_headers. Qed.
+Print Assumptions C13_dedup_headers_kept.
+
+(* the names are unique whenever the first character of the numbering format occurs in no header (the collision of the
+   known finding needs a header that already looks like a generated name) *)
+Theorem C13_dedup_headers_unique : forall cs pre post c0 pre' hs,
+  pre = c0 :: pre' -> (forall h, In h hs -> ~ In c0 h) ->
+  NoDup (rename_duplicate_headers cs pre post hs).
+Proof. exact rename_unique. Qed.
+Print Assumptions C13_dedup_headers_unique.
+
 (* loading from a tuple / data package selects exactly the requested resources, each with its own rows *)
 Theorem C13_selection_pairs : forall (A B : Type) (m : str -> bool) (name : A -> str) (l : list (A * B)) p,
   In p (select_pairs m name l) <-> In p l /\ m (name (fst p)) = true.
@@ -85,6 +110,15 @@ Local Open Scope string_scope.
 Example C13_dedup_headers_example :
   rename_duplicate_headers true (s " (") (s ")") [s "a"; s "b"; s "a"; s "a"] = [s "a (1)"; s "b"; s "a (2)"; s "a (3)"].
 Proof. vm_compute. reflexivity. Qed.
+
+(* the premise of C13_dedup_headers_unique is met by such inputs *)
+Example C13_dedup_headers_unique_example :
+  NoDup (rename_duplicate_headers true (s " (") (s ")") [s "a"; s "b"; s "a"; s "a"]).
+Proof.
+  apply (C13_dedup_headers_unique true (s " (") (s ")") 32 (s "(")); [reflexivity|].
+  intros h H. vm_compute in H.
+  repeat (destruct H as [<-|H]; [vm_compute; intros [E|[]]; discriminate|]). destruct H.
+Qed.
 
 (* ... but not always (known finding C13.dedup_headers_collision): a generated name can
    collide with a header that is already there.  The full statement
